@@ -192,4 +192,117 @@ Proof.
   - exact (Hsi (SI_move_full T tab_en check_fn w h mv pos m ms v w r w' (Sh_refl w) H)).
 Qed.
 
+(* ---------- the public allocating calls ---------- *)
+Lemma ap_allord {A} (m : W A) w r w' : OrdHistAlloc.AP T v m -> Core w -> AllOrd w -> m w = Val (r, w') -> AllOrd w'.
+Proof. intros Hm C A0 H. exact (proj1 (Hm _ _ _ A0 (core_fresh _ C) H)). Qed.
+
+Lemma create_allord h name w r w' : Core w -> AllOrd w -> MV w ->
+  e_create_sub_element T LATEST h name w = Val (r, w') -> AllOrd w'.
+Proof.
+  intros C A M H. unfold e_create_sub_element in H. wstepn H vh Ev; [|exact A]. pose proof (M _ _ _ Ev) as ->.
+  exact (ap_allord _ _ _ _ (AP_raw_create T WF v h name) C A H).
+Qed.
+Lemma create_at_allord h name pos w r w' : Core w -> AllOrd w -> MV w ->
+  e_create_sub_element_at T LATEST h name pos w = Val (r, w') -> AllOrd w'.
+Proof.
+  intros C A M H. unfold e_create_sub_element_at in H. wstepn H vh Ev; [|exact A]. pose proof (M _ _ _ Ev) as ->.
+  exact (ap_allord _ _ _ _ (AP_raw_create_at T WF v h name pos) C A H).
+Qed.
+Lemma named_allord h name item w r w' : Core w -> AllOrd w -> MV w ->
+  e_create_named_sub_element T check_fn LATEST h name item w = Val (r, w') -> AllOrd w'.
+Proof.
+  intros C A M H. unfold e_create_named_sub_element in H. wstepn H m Em; [|exact A]. wstepn H vh Ev; [|exact A].
+  pose proof (M _ _ _ Ev) as ->. exact (ap_allord _ _ _ _ (AP_raw_create_named T WF check_fn v h name item m) C A H).
+Qed.
+Lemma named_at_allord h name item pos w r w' : Core w -> AllOrd w -> MV w ->
+  e_create_named_sub_element_at T check_fn LATEST h name item pos w = Val (r, w') -> AllOrd w'.
+Proof.
+  intros C A M H. unfold e_create_named_sub_element_at in H. wstepn H m Em; [|exact A]. wstepn H vh Ev; [|exact A].
+  pose proof (M _ _ _ Ev) as ->. exact (ap_allord _ _ _ _ (AP_raw_create_named_at T WF check_fn v h name item pos m) C A H).
+Qed.
+Lemma get_or_create_allord h name w r w' : Core w -> AllOrd w -> MV w ->
+  e_get_or_create_sub_element T LATEST h name w = Val (r, w') -> AllOrd w'.
+Proof.
+  intros C A M H. unfold e_get_or_create_sub_element in H. wstepn H vh Ev; [|exact A]. pose proof (M _ _ _ Ev) as ->.
+  wstepn H s Es; [|exact A]. destruct s as [c|]; [winv H; exact A|].
+  exact (ap_allord _ _ _ _ (AP_raw_create T WF v h name) C A H).
+Qed.
+Lemma get_or_create_named_allord h name item w r w' : Core w -> AllOrd w -> MV w ->
+  e_get_or_create_named_sub_element T check_fn LATEST h name item w = Val (r, w') -> AllOrd w'.
+Proof.
+  intros C A M H. unfold e_get_or_create_named_sub_element in H. wstepn H m Em; [|exact A]. wstepn H vh Ev; [|exact A].
+  pose proof (M _ _ _ Ev) as ->. wstepn H n En. winv En. wstepn H s Es; [|exact A]. destruct s as [c|]; [winv H; exact A|].
+  exact (ap_allord _ _ _ _ (AP_raw_create_named T WF check_fn v h name item m) C A H).
+Qed.
+Lemma copy_allord h other w r w' : Core w -> AllOrd w -> MV w ->
+  e_create_copied_sub_element T LATEST h other w = Val (r, w') -> AllOrd w'.
+Proof.
+  intros C A M H. unfold e_create_copied_sub_element in H. destruct (h =? other); [winv H; exact A|].
+  wstepn H m Em; [|exact A]. wstepn H vh Ev; [|exact A]. pose proof (M _ _ _ Ev) as ->.
+  exact (raw_copy_allord h other m w r w' C A H).
+Qed.
+Lemma copy_at_allord h other pos w r w' : Core w -> AllOrd w -> MV w ->
+  e_create_copied_sub_element_at T LATEST h other pos w = Val (r, w') -> AllOrd w'.
+Proof.
+  intros C A M H. unfold e_create_copied_sub_element_at in H. destruct (h =? other); [winv H; exact A|].
+  wstepn H m Em; [|exact A]. wstepn H vh Ev; [|exact A]. pose proof (M _ _ _ Ev) as ->.
+  exact (raw_copy_at_allord h other pos m w r w' C A H).
+Qed.
+
+Lemma new_model_allord w r w' : Core w -> AllOrd w -> new_model T root_attrs w = Val (r, w') -> AllOrd w'.
+Proof.
+  intros C A H. pose proof (core_fresh _ C) as F. unfold new_model in H.
+  destruct (et_new T (autosar_element T)) as [ty| |]; destruct (elem T (autosar_element T)) as [ed| |]; try discriminate.
+  injection H as _ <-.
+  set (nd := mkNode _ _ _ _ _ _ _).
+  destruct (allord_alloc T v w nd A F eq_refl) as (A1 & _). intros i x Hx.
+  destruct (A1 i x Hx) as (it & HI & HO). exists it. split; [|exact HO].
+  apply (items_of_frame (walloc w nd)); [|exact HI]. intros j cn Hj. exists cn. split; [exact Hj|reflexivity].
+Qed.
+
+(* ---------- every operation ---------- *)
+Lemma sh_allord_op {A} (m : W A) w r w' : (forall w0, shp w0 m) -> AllOrd w -> m w = Val (r, w') -> AllOrd w'.
+Proof. intros Hm A0 H. exact (Sh_allord T v _ _ (Hm w w r w' (Sh_refl w) H) A0). Qed.
+
+Lemma wunit_inv (m : W unit) w r w' : wunit m w = Val (r, w') -> exists r0, m w = Val (r0, w').
+Proof. unfold wunit. intros H. apply wbind_inv in H as [(a & w1 & H1 & H2)|(e & H1 & _)]; [winv H2|]; eauto. Qed.
+Lemma welem_inv (m : W id) w r w' : welem m w = Val (r, w') -> exists r0, m w = Val (r0, w').
+Proof. unfold welem. intros H. apply wbind_inv in H as [(a & w1 & H1 & H2)|(e & H1 & _)]; [winv H2|]; eauto. Qed.
+
+Theorem step_allord o w r w' :
+  Core w -> AllOrd w -> MV w ->
+  run_op T tab_el tab_en check_fn LATEST root_attrs o w = Val (r, w') -> AllOrd w'.
+Proof.
+  intros C A M H. destruct o; cbn [run_op] in H;
+    try (apply welem_inv in H as (r0 & H)); try (apply wunit_inv in H as (r0 & H)).
+  - eapply create_allord; eauto.
+  - eapply create_at_allord; eauto.
+  - eapply named_allord; eauto.
+  - eapply named_at_allord; eauto.
+  - eapply copy_allord; eauto.
+  - eapply copy_at_allord; eauto.
+  - eapply move_allord; eauto.
+  - eapply move_at_allord; eauto.
+  - exact (sh_allord_op _ _ _ _ (fun w0 => shp_e_remove T w0 h sub) A H).
+  - exact (sh_allord_op _ _ _ _ (fun w0 => shp_e_remove_kind T w0 h name) A H).
+  - exact (sh_allord_op _ _ _ _ (fun w0 => shp_set_item_name T check_fn LATEST w0 h name) A H).
+  - exact (sh_allord_op _ _ _ _ (fun w0 => shp_set_cdata T tab_en check_fn LATEST w0 h v0) A H).
+  - exact (sh_allord_op _ _ _ _ (fun w0 => shp_remove_cdata T w0 h) A H).
+  - exact (sh_allord_op _ _ _ _ (fun w0 => shp_insert_citem T w0 h text pos) A H).
+  - exact (sh_allord_op _ _ _ _ (fun w0 => shp_remove_citem T w0 h pos) A H).
+  - exact (sh_allord_op _ _ _ _ (fun w0 => shp_set_ref_target T tab_el tab_en check_fn LATEST w0 h target) A H).
+  - exact (sh_allord_op _ _ _ _ (fun w0 => shp_set_attribute T check_fn LATEST w0 h attr v0) A H).
+  - apply wbind_inv in H as [(b & w1 & H1 & H2)|(e & H1 & _)]; [winv H2|];
+      exact (sh_allord_op _ _ _ _ (fun w0 => shp_remove_attribute T w0 h attr) A H1).
+  - exact (sh_allord_op _ _ _ _ (fun w0 => shp_set_comment w0 h c) A H).
+  - eapply get_or_create_allord; eauto.
+  - eapply get_or_create_named_allord; eauto.
+  - apply wbind_inv in H as [(b & w1 & H1 & H2)|(e & H1 & _)]; [winv H2|]; eapply new_model_allord; eauto.
+  - apply wbind_inv in H as [(b & w1 & H1 & H2)|(e & H1 & _)]; [winv H2|];
+      exact (sh_allord_op _ _ _ _ (fun w0 => shp_create_file T w0 m name version) A H1).
+  - exact (sh_allord_op _ _ _ _ (fun w0 => shp_remove_file T w0 m f) A H).
+  - exact (sh_allord_op _ _ _ _ (fun w0 => shp_add_to_file T w0 h f) A H).
+  - exact (sh_allord_op _ _ _ _ (fun w0 => shp_remove_from_file T w0 h f) A H).
+Qed.
+
 End Ops.
